@@ -360,6 +360,44 @@ func runC17(c *h.Ctx) {
 			}
 		}
 	}
+	// the other ISO 8601 decimal sign: where a text with a comma before the
+	// fraction is read at all, it is read - and rounded to the precision asked
+	// for - as the same text with a full stop
+	{
+		k := 0
+		for _, tx := range []string{"12:34:56.789", "23:59:59.9999996", "12:34:56.5", "2023-12-31T23:59:59.5+01:00", "2020-01-01T00:00:00.6", "12:34:56.123456789+05:30", "2024-02-29 23:59:59.95", "00:00:00.000001"} {
+			comma := strings.Replace(tx, ".", ",", 1)
+			for _, m := range c17Methods {
+				for _, prec := range []int{-1, 0, 1, 2, 3, 6, 7} {
+					k++
+					if !c.Mine(k) {
+						continue
+					}
+					arg := ""
+					if prec >= 0 {
+						arg = fmt.Sprint(prec)
+					}
+					for _, tail := range []string{"", ".string()"} {
+						p := cachedPath("$." + m + "(" + arg + ")" + tail)
+						if p == nil {
+							continue
+						}
+						od := h.Call("query", p, tx, h.Opts{TZ: true, Zone: h.ParseZone("+05:30")})
+						oc := h.Call("query", p, comma, h.Opts{TZ: true, Zone: h.ParseZone("+05:30")})
+						c.Eval(2)
+						if od.Class == h.Panic || oc.Class == h.Panic || oc.Class != h.OK {
+							continue // (not read at all: nothing to compare)
+						}
+						if od.Class != h.OK || h.CanonListTyped(od.Items) != h.CanonListTyped(oc.Items) {
+							c.Violate("cast.precision", h.F("method", m, "kind", "comma-fraction"), fmt.Sprintf("$.%s(%s)%s on %q = %s; on %q = %s", m, arg, tail, comma, oc.Summary(), tx, od.Summary()), h.Case{Kind: "exec", Path: "$." + m + "(" + arg + ")" + tail, Doc: fmt.Sprintf("%q", comma), TZ: true, Zone: "+05:30"})
+						} else {
+							c.Held("cast.precision")
+						}
+					}
+				}
+			}
+		}
+	}
 	// sequences of datetimes of mixed zone-awareness as operands: the pairs are
 	// examined in order, and a pair that needs a time zone (without WithTZ) is
 	// a non-suppressible error where it is met - not something a later
